@@ -30,11 +30,14 @@ pub enum Beh {
     Stall,
     /// answer 200 after this many milliseconds
     Delayed200(u32),
+    /// answer 200 this many milliseconds after the FIRST request on this path arrived: every
+    /// request that is waiting then is answered at the same moment
+    ReleaseAt(u32),
 }
 
 impl Beh {
     fn accepting(&self) -> bool {
-        matches!(self, Beh::Status(200 | 201 | 202 | 204) | Beh::Delayed200(_) | Beh::Interim(102))
+        matches!(self, Beh::Status(200 | 201 | 202 | 204) | Beh::Delayed200(_) | Beh::ReleaseAt(_) | Beh::Interim(102))
     }
     fn answers_nothing(&self) -> bool {
         matches!(self, Beh::Stall | Beh::Interim(_))
@@ -213,6 +216,22 @@ async fn serve_conn(mut sock: tokio::net::TcpStream, st: Arc<Mutex<EndpointState
             Beh::Status(code) => {
                 let resp = if code == 204 || code == 304 { format!("{}\r\n", status_line(code)) } else { format!("{}Content-Length: 0\r\n\r\n", status_line(code)) };
                 if sock.write_all(resp.as_bytes()).await.is_err() {
+                    return;
+                }
+                let _ = sock.flush().await;
+                mark_answered(&st);
+            }
+            Beh::ReleaseAt(ms) => {
+                let (first, now) = {
+                    let g = st.lock().unwrap();
+                    let first = g.hits.iter().filter(|h| h.path == path).map(|h| h.t_ms).min().unwrap_or(0);
+                    (first, g.t0.elapsed().as_millis() as u64)
+                };
+                let due = first + ms as u64;
+                if due > now {
+                    tokio::time::sleep(Duration::from_millis(due - now)).await;
+                }
+                if sock.write_all(format!("{}Content-Length: 0\r\n\r\n", status_line(200)).as_bytes()).await.is_err() {
                     return;
                 }
                 let _ = sock.flush().await;
@@ -469,7 +488,7 @@ pub fn run_batch(cases: &[PushCase], secs: u64) -> BatchOut {
                 for (n, h) in hs.iter().enumerate() {
                     if let Some(nx) = hs.get(n + 1) {
                         let unanswered = h.answered_ms.map(|a| a > nx.t_ms).unwrap_or(true);
-                        let silent = matches!(h.beh, Beh::Delayed200(_) | Beh::Stall | Beh::Interim(_));
+                        let silent = matches!(h.beh, Beh::Delayed200(_) | Beh::ReleaseAt(_) | Beh::Stall | Beh::Interim(_));
                         if silent && unanswered && nx.t_ms + 1_500 < h.t_ms + c.dl_ms() {
                             v("pushed_while_leased", &["C03", "C14"], format!("message {} of {} was POSTed at {} ms and again at {} ms although the first POST was still unanswered and its ack deadline had not elapsed", pb.id, sub, h.t_ms, nx.t_ms));
                             break;
@@ -589,7 +608,7 @@ pub fn build_cases(tier: Tier, seed: u64, batch: u64) -> Vec<PushCase> {
         Tier::Thorough => 150usize,
     };
     let mut k = (batch as usize * 97) % all_pairs.len();
-    while cases.len() < want - 20 {
+    while cases.len() < want - 21 {
         let (a, b) = all_pairs[k % all_pairs.len()].clone();
         k += match tier {
             Tier::Quick => 7,
@@ -608,6 +627,8 @@ pub fn build_cases(tier: Tier, seed: u64, batch: u64) -> Vec<PushCase> {
     // dispatches, two subscriptions on one topic, and mixed fates inside one round
     cases.push(PushCase { script: vec![Beh::Delayed200(300)], n_msgs: 60, kind: 0, delete_after_ms: 0, payload: plain(), script_odd: None, dl: 0 });
     cases.push(PushCase { script: vec![Beh::Delayed200(1_500)], n_msgs: 60, kind: 0, delete_after_ms: 0, payload: plain(), script_odd: None, dl: 0 });
+    // an endpoint that holds a whole round and then answers all of it at the same moment
+    cases.push(PushCase { script: vec![Beh::ReleaseAt(1_500)], n_msgs: 60, kind: 0, delete_after_ms: 0, payload: plain(), script_odd: None, dl: 0 });
     cases.push(PushCase { script: vec![Beh::Status(200)], n_msgs: 2, kind: 0, delete_after_ms: 0, payload: payload(next()), script_odd: None, dl: 0 });
     cases.push(PushCase { script: vec![Beh::Status(500), Beh::Status(204)], n_msgs: 0, kind: 4, delete_after_ms: 0, payload: plain(), script_odd: None, dl: 0 });
     cases.push(PushCase { script: vec![Beh::Status(200)], n_msgs: 2, kind: 0, delete_after_ms: 0, payload: plain(), script_odd: Some(vec![Beh::Stall, Beh::Status(200)]), dl: 0 });
@@ -1049,6 +1070,21 @@ pub fn run_mt_publish_storm(seed: u64, publishers: usize, batches: usize, per_ba
                     Ok(got)
                 }));
             }
+            // meanwhile: requests that keep one subscription's mailbox full without touching its messages
+            let stop = Arc::new(std::sync::atomic::AtomicBool::new(false));
+            let mut noise = Vec::new();
+            for _ in 0..24 {
+                let routes = routes.clone();
+                let stop = stop.clone();
+                let sub = subs[1].clone();
+                noise.push(tokio::spawn(async move {
+                    let mut c = SubscriberClient::new(Wire::new(routes));
+                    while !stop.load(std::sync::atomic::Ordering::Relaxed) {
+                        let _ = c.modify_ack_deadline(ModifyAckDeadlineRequest { subscription: sub.clone(), ack_ids: vec!["999999999".into()], ack_deadline_seconds: 30 }).await;
+                        tokio::task::yield_now().await;
+                    }
+                }));
+            }
             let mut by_data: HashMap<Vec<u8>, String> = HashMap::new();
             let mut ids_seen: HashMap<String, Vec<u8>> = HashMap::new();
             for h in hs {
@@ -1064,6 +1100,10 @@ pub fn run_mt_publish_storm(seed: u64, publishers: usize, batches: usize, per_ba
                     Ok(Err(e)) => bad.push(("publish_failed_mt".into(), vec!["C07"], e)),
                     Err(_) => bad.push(("publish_failed_mt".into(), vec!["C07"], "publisher task panicked".into())),
                 }
+            }
+            stop.store(true, std::sync::atomic::Ordering::Relaxed);
+            for h in noise {
+                let _ = tokio::time::timeout(Duration::from_secs(20), h).await;
             }
             let total = by_data.len() as u64;
             // drain both subscriptions with one consumer each
